@@ -1442,6 +1442,16 @@ def all_contracts(mod):
     return list(out.values())
 
 
+def lookup_contract(mod, name):
+    """A contract of the property module (or of a callee it assumes), or the delegation contract of a backend wrapper."""
+    table = {c.name: c for c in all_contracts(mod)}
+    if name not in table:
+        from contracts import backend
+
+        table.update(backend.by_name())
+    return table[name]
+
+
 def replay(path):
     import importlib
 
@@ -1450,7 +1460,7 @@ def replay(path):
     mod = importlib.import_module(f"props.{pid}")
     if hasattr(mod, "replay") and data.get("contract", "").startswith("extra:"):
         return mod.replay(data)
-    contract = {c.name: c for c in all_contracts(mod)}[data["contract"]]
+    contract = lookup_contract(mod, data["contract"])
     inst = {i.name: i for i in contract.instances(data.get("tier", "quick"))}[data["instance"]]
     print(f"replaying {data['contract']} [{data['instance']}] obligation {data['failed_obligation']}")
     nat = data.get("native_replay") or {}
